@@ -88,6 +88,16 @@ def triples(lst):
 
 
 def dead_end_record(cfg, seed, target, res):
+    """Total wrapper: a draw log that does not have the shape the reconstruction relies on (four draws per complete step in
+    the order site descriptor / node / partner / (fragment, node) - e.g. because a changed implementation draws differently)
+    yields no dead-end record instead of a harness crash; the run then counts as a skipped dead end."""
+    try:
+        return _dead_end_record(cfg, seed, target, res)
+    except (TypeError, ValueError, IndexError, KeyError):
+        return None
+
+
+def _dead_end_record(cfg, seed, target, res):
     """A run that raised: the growth events are reconstructed from the RNG log alone (every complete step logged four
     draws with their results; node keys are merge offsets) and the draws of the failing step say where it failed."""
     log = res.get("log")
